@@ -163,6 +163,16 @@ func init() {
 				for j := 0; j < nreq; j++ {
 					reqs = append(reqs, histOp(g, lines, reqs))
 				}
+				// names and URLs in which a rule's lookup window occurs twice, asked by several goroutines at once on the
+				// cold cache: the same rule is then retrieved twice within one lookup while other goroutines insert it
+				for j := 0; j < 6; j++ {
+					h := Pick(g, hostPool)
+					rep := Req{Kind: Pick(g, []string{"dns", "host", "url"}), Hostname: h + "." + h, URL: "http://" + h + "." + h + "/", Type: 4}
+					at := g.Intn(len(reqs) + 1)
+					for c := 0; c < 6; c++ {
+						reqs = append(reqs[:at], append([]Req{rep}, reqs[at:]...)...)
+					}
+				}
 				n := Pick(g, []int{2, 3, 4, 8, 16, 32})
 				emit(encodeStorage(ls) + "\t" + encodeReqs(reqs) + "\t" + fmt.Sprint(n) + "\t" + b01(i%2 == 0))
 			}
@@ -180,9 +190,12 @@ func init() {
 			filterlist.VerifSetHook(nil)
 			ref := newHistEngines(ls, fileBacked)
 			want := make([]string, len(reqs))
+			wantN := make([]int, len(reqs))
 			hits := 0
 			for i, rq := range reqs {
-				want[i], _, _ = ref.runOp(rq)
+				var rr *histResult
+				want[i], rr, _ = ref.runOp(rq)
+				wantN[i] = rr.count()
 				if strings.Trim(want[i], "/n0") != "" {
 					hits++
 				}
@@ -210,13 +223,18 @@ func init() {
 			filterlist.VerifSetHook(mon3.handle)
 			e3 := newHistEngines(ls, fileBacked)
 			got := make([]string, len(reqs))
+			gotN := make([]int, len(reqs))
 			var wg sync.WaitGroup
 			for w := 0; w < n; w++ {
 				wg.Add(1)
 				go func(w int) {
 					defer wg.Done()
 					for i := w; i < len(reqs); i += n {
-						if p, msg := protect(func() { got[i], _, _ = e3.runOp(reqs[i]) }); p {
+						if p, msg := protect(func() {
+							var rr *histResult
+							got[i], rr, _ = e3.runOp(reqs[i])
+							gotN[i] = rr.count()
+						}); p {
 							got[i] = "panic:" + msg
 						}
 					}
@@ -234,7 +252,9 @@ func init() {
 			diff := 0
 			first := -1
 			for i := range reqs {
-				if got[i] != want[i] {
+				// the answer as a set of rule texts, and the number of rules reported (a rule returned twice is a
+				// different answer)
+				if got[i] != want[i] || gotN[i] != wantN[i] {
 					diff++
 					if first < 0 {
 						first = i
